@@ -313,3 +313,81 @@ Example C05_heff_link_example :
   option_map gaxes (heff_link 2000 200 ket op 2 0 9) = Some [2001; 2006; 1; 6].
 Proof. vm_compute. split; reflexivity. Qed.
 Print Assumptions C05_heff_link_example.
+
+(* ==== the TWO-SITE effective Hamiltonian at the diagram level (Contr/Heff2.v) ============================================= *)
+(* _update_two_site_nodes(target = a, next = b) contracts the pair in the state first (two-site node l, legs: parent of
+   the upper node, a's other children, b's other children, a's open leg, b's open leg - C02_contract_open_rule) and then
+   builds H_eff from the TTNO (which still has a and b) and the cache; `ket` is that state.  tsa / tsb = what lies behind
+   the neighbours of a other than b / of b other than a (operator order). *)
+From Coq Require Import Permutation.
+From PTN Require Import Contr.Heff2 Contr.Heff2Proofs.
+
+(* universal: for every tree, every adjacent pair (either one the parent), independent neighbour orders of state and
+   operator and any order of the two-site node's neighbours, _contract_all_except_two_nodes built from fresh blocks is
+   the <psi|H|psi> network with the two ket atoms of the pair and their conjugate twins removed; rows = conjugate-side
+   legs, columns = ket-side legs, in the leg order of the two-site tensor (virtual legs in its own order, then a, b) *)
+Theorem C05_heff_two_diagram : forall woff aoff ket op a b l tsa tsb,
+  wf_twosite woff ket op a b l tsa tsb ->
+  exists g, heff_two woff aoff ket op a b l = Some g /\ diagram_is g (two_expected woff aoff ket op a b l tsa tsb).
+Proof. exact heff_two_correct. Qed.
+Print Assumptions C05_heff_two_diagram.
+
+(* the same with the decidable hypothesis evaluated per explored two-site call *)
+Theorem C05_heff_two_checked : forall woff aoff ket op a b l,
+  wf_twositeb woff ket op a b l = true ->
+  exists tsa tsb g,
+    side_trees ket l (side_ids op a b) = Some tsa /\ side_trees ket l (side_ids op b a) = Some tsb /\
+    heff_two woff aoff ket op a b l = Some g /\ diagram_is g (two_expected woff aoff ket op a b l tsa tsb).
+Proof. exact wf_twositeb_correct. Qed.
+Print Assumptions C05_heff_two_checked.
+
+(* the result checker evaluated per explored two-site call is the diagram statement *)
+Theorem C05_heff_two_ok_sound : forall woff aoff ket op a b l,
+  heff_two_ok woff aoff ket op a b l = true ->
+  exists tsa tsb g,
+    side_trees ket l (side_ids op a b) = Some tsa /\ side_trees ket l (side_ids op b a) = Some tsb /\
+    heff_two woff aoff ket op a b l = Some g /\ diagram_is g (two_expected woff aoff ket op a b l tsa tsb).
+Proof. exact heff_two_ok_sound. Qed.
+Print Assumptions C05_heff_two_ok_sound.
+
+(* the loop of contract_all_but_one_neighbour_block_to_hamiltonian and the transposition of
+   _determine_two_site_leg_permutation, given blocks with legs (ket, operator, conjugate) *)
+Theorem C05_heff_two_legs : forall oa ob ln ta tb a b ba bb (w ya yb x : id -> wire) (blka blkb : id -> garr)
+    ooa oia oob oib preA postA preB postB,
+  neighbouring_nodes oa = preA ++ b :: postA -> NoDup (preA ++ b :: postA) ->
+  neighbouring_nodes ob = preB ++ a :: postB -> NoDup (preB ++ a :: postB) ->
+  NoDup (neighbouring_nodes ln) ->
+  Permutation (neighbouring_nodes ln) ((preA ++ postA) ++ (preB ++ postB)) ->
+  ~ In b (neighbouring_nodes ln) ->
+  gaxes ta = map ya (neighbouring_nodes oa) ++ [ooa; oia] ->
+  gaxes tb = map yb (neighbouring_nodes ob) ++ [oob; oib] ->
+  ya b = yb a ->
+  (forall nb, In nb (preA ++ postA) -> aget nb ba = Some (blka nb) /\ gaxes (blka nb) = [w nb; ya nb; x nb]) ->
+  (forall nb, In nb (preB ++ postB) -> aget nb bb = Some (blkb nb) /\ gaxes (blkb nb) = [w nb; yb nb; x nb]) ->
+  exists g, heff_two_with oa ob ln ta tb a b ba bb = Some g /\
+    gaxes g = map x (neighbouring_nodes ln) ++ [ooa; oob] ++ map w (neighbouring_nodes ln) ++ [oia; oib] /\
+    gatoms g = (gatoms ta ++ flat_map (fun nb => gatoms (blka nb)) (preA ++ postA)) ++
+               (gatoms tb ++ flat_map (fun nb => gatoms (blkb nb)) (preB ++ postB)) /\
+    gbnd g = ya b :: (rev (map ya (preA ++ postA)) ++ gbnd ta ++ flat_map (fun nb => gbnd (blka nb)) (preA ++ postA)) ++
+                     (rev (map yb (preB ++ postB)) ++ gbnd tb ++ flat_map (fun nb => gbnd (blkb nb)) (preB ++ postB)) /\
+    gglue g = (gglue ta ++ flat_map (fun nb => gglue (blka nb)) (preA ++ postA)) ++
+              (gglue tb ++ flat_map (fun nb => gglue (blkb nb)) (preB ++ postB)).
+Proof. exact heff_two_with_axes. Qed.
+Print Assumptions C05_heff_two_legs.
+
+(* non-vacuity: the 4-node state of C05_w_kops with the pair contracted by the store model's contract_nodes (node 9),
+   the operator with another child order at the root.  Pair (2, 0): the child is the target; pair (0, 2): the parent is;
+   the two-site tensor's legs are (to 3, to 1, open of 2, open of 0) = wires [6; 0; 7; 2] resp. (to 1, to 3, open of 0,
+   open of 2) = [0; 6; 2; 7]; pairs (0, 1) and (3, 2) have a leaf end *)
+Example C05_heff_two_example :
+  let op := fst (run (store_at 1000 100) C05_w_oops) in
+  let ket := fun a b => fst (run empty_store (C05_w_kops ++ [Contract a b 9])) in
+  forallb (fun ab => andb (wf_twositeb 2000 (ket (fst ab) (snd ab)) op (fst ab) (snd ab) 9)
+                          (heff_two_ok 2000 200 (ket (fst ab) (snd ab)) op (fst ab) (snd ab) 9))
+          [(2, 0); (0, 2); (0, 1); (1, 0); (3, 2); (2, 3)] = true /\
+  t_axes (ket 2 0) 9 = [6; 0; 7; 2] /\
+  option_map gaxes (heff_two 2000 200 (ket 2 0) op 2 0 9) = Some [2006; 2000; 1006; 1002; 6; 0; 1007; 1003] /\
+  t_axes (ket 0 2) 9 = [0; 6; 2; 7] /\
+  option_map gaxes (heff_two 2000 200 (ket 0 2) op 0 2 9) = Some [2000; 2006; 1002; 1006; 0; 6; 1003; 1007].
+Proof. vm_compute. repeat split; reflexivity. Qed.
+Print Assumptions C05_heff_two_example.
